@@ -55,7 +55,7 @@ TRUSTED = [
 ]
 RULE = (
     "op trees built from generated SQLAlchemy schema objects the way autogenerate builds them (create/drop table, add/drop/alter column, "
-    "create/drop index incl. expressions, unique/fk constraints, table comments; ModifyTableOps containers); names from identifier classes "
+    "create/drop index incl. expressions (text, func, desc, literal_column, sa.column, labels, cast, collate, mixed with plain columns), unique/fk constraints, table comments; ModifyTableOps containers); names from identifier classes "
     "(plain, mixed case, reserved, space, quotes, backslash, percent, newline/tab, non-ASCII incl. non-printable, dotted); types with arguments; "
     "server defaults str/text/func/identity/computed; naming_convention on/off; batch on/off; schema on/off; x 5 dialects. "
     "A case is non-trivial when it renders at least one operation; distinct by (op kinds, rendered text)"
@@ -435,6 +435,10 @@ def run(ctx, n_cases=None, rng_name="main"):
         ctx.hist("render_dialect", spec["opts"].get("render_dialect"))
         for role, cls, _v in spec.get("name_classes", []):
             ctx.hist("name_class", cls)
+        for t in spec["tables"]:
+            for ix in t.get("indexes", []):
+                for e in ix["elems"]:
+                    ctx.hist("index_elem", "+".join(sorted(k for k in e)))
         model_compare(ctx, case, pending)
         oracle_case(ctx, case)
         if k < 3:
